@@ -18,6 +18,9 @@ type diffCase struct {
 	A     BS   `json:"a"`
 	B     BS   `json:"b"`
 	Color bool `json:"color"`
+	// AfterBigKiB > 0: right before this comparison the process made another failing comparison of two texts of that many
+	// KiB each (a big export); the report of this pair must be the one it gets in isolation
+	AfterBigKiB int `json:"after_big_comparison_kib,omitempty"`
 }
 
 func linesOf(s string) []string { return strings.Split(s, "\n") }
@@ -290,6 +293,22 @@ func checkDiffCase(c diffCase) error {
 	colors.NOCOLOR = !c.Color
 	defer func() { colors.NOCOLOR = true }()
 
+	if c.AfterBigKiB > 0 {
+		alone := prettyDiff(a, b, "", 0)
+		line := strings.Repeat("0123456789abcdef", 2048) // 32 KiB
+		var bigA, bigB []string
+		for i := 0; i*32 < c.AfterBigKiB; i++ {
+			bigA = append(bigA, fmt.Sprintf("%04d %s", i, line))
+			bigB = append(bigB, fmt.Sprintf("%04d %s", i, line))
+		}
+		bigB[len(bigB)/2] = "changed line of the big text"
+		if r := prettyDiff(strings.Join(bigA, "\n"), strings.Join(bigB, "\n"), "", 0); r == "" {
+			return fmt.Errorf("R1: empty report for two different big texts")
+		}
+		if after := prettyDiff(a, b, "", 0); after != alone {
+			return fmt.Errorf("the report of a pair depends on the comparison made before it (two texts of %d KiB each):\nalone %q\nafter %q", c.AfterBigKiB, clip(alone), clip(after))
+		}
+	}
 	rep := prettyDiff(a, b, "", 0)
 	// R1
 	if (rep == "") != (a == b) {
@@ -346,6 +365,14 @@ func checkDiffCase(c diffCase) error {
 }
 
 func classifyDiffCase(c diffCase) ([]string, bool) {
+	if c.AfterBigKiB > 0 {
+		cls0, nt0 := classifyDiffCaseBase(diffCase{A: c.A, B: c.B, Color: c.Color})
+		return append(cls0, "after_a_big_comparison"), nt0 || c.A != c.B
+	}
+	return classifyDiffCaseBase(c)
+}
+
+func classifyDiffCaseBase(c diffCase) ([]string, bool) {
 	a, b := string(c.A), string(c.B)
 	var cls []string
 	if c.Color {
@@ -575,7 +602,11 @@ func genDiffCase(t *rapid.T) diffCase {
 	if rapid.Bool().Draw(t, "swap") {
 		a, b = b, a
 	}
-	return diffCase{A: BS(a), B: BS(b), Color: rapid.Bool().Draw(t, "color")}
+	c := diffCase{A: BS(a), B: BS(b), Color: rapid.Bool().Draw(t, "color")}
+	if rapid.IntRange(0, 39).Draw(t, "afterbig") == 0 {
+		c.AfterBigKiB = rapid.SampledFrom([]int{64, 520, 600, 1100}).Draw(t, "bigkib")
+	}
+	return c
 }
 
 func TestC13_Random(t *testing.T) {
